@@ -615,7 +615,7 @@ impl<N: ComplexField> RungeKuttaCoefficients<4> for RK23Coefficients<N> {
             -Self::RealField::from_u8(5)? / Self::RealField::from_u8(72)?,
             Self::RealField::from_u8(12)?.recip(),
             Self::RealField::from_u8(9)?.recip(),
-            Self::RealField::from_u8(8)?.recip(),
+            -Self::RealField::from_u8(8)?.recip(),
         ]))
     }
 }
